@@ -56,3 +56,22 @@ for name, fn in gens.items():
     s = s[:i] + '\n' + '\n'.join(fn()) + '\n' + s[j:]
 open(p, 'w').write(s)
 print('DESIGN.md tables regenerated')
+
+# ---- A.2: refresh the "quick (evaluations / wall)" column from the committed quick-tier evidence
+import re as _re
+s = open(p).read()
+def _row(m):
+    pid = m.group(1)
+    try:
+        ev = json.load(open(f'{V}/evidence/{pid}.json'))
+    except Exception:
+        return m.group(0)
+    if ev.get('tier') != 'quick':
+        return m.group(0)
+    cov = ev.get('coverage', {})
+    cell = f"{cov.get('evaluations', '?')} evaluations, {cov.get('distinct_nontrivial', '?')} distinct non-trivial / {ev.get('wall_s', 0):.0f} s"
+    cols = m.group(0).split('|')
+    cols[4] = ' ' + cell + ' '
+    return '|'.join(cols)
+s = _re.sub(r'^\| (C\d\d) \|[^\n]*$', lambda m: _row(m) if m.group(0).count('|') == 6 else m.group(0), s, flags=_re.M)
+open(p, 'w').write(s)
